@@ -1,4 +1,5 @@
 """C05 - lexical conventions: literals, whitespace, separators, case, empty arguments."""
+import re
 import itertools
 from decimal import Decimal
 from fractions import Fraction
@@ -26,7 +27,7 @@ def rec_env(extra_vars=None):
         return len(calls)
     vars_ = {'v_a': 4, 'v_b': 9, 'v_s': 'txt', 'v_comma': ',', 'v_semi': ';', 'v_bslash': '\\'}
     vars_.update(extra_vars or {})
-    env = Env(vars=vars_, cells={'B2': 6, 'C3': 'cell text', 'AA10': 2.5}, ranges={'B2:C3': [6, 7, 8]}, funcs={'REC': rec, 'ID': lambda x: x}, record=True)
+    env = Env(vars=vars_, cells={'B2': 6, 'C3': 'cell text', 'AA10': 2.5, 'N1': 71, 'T3': 'tee', 'R2': 0.125}, ranges={'B2:C3': [6, 7, 8]}, funcs={'REC': rec, 'ID': lambda x: x}, record=True)
     return env, calls
 
 
@@ -137,6 +138,11 @@ def check_string(case):
     else:
         sep = SEPS[len(s) % 3]
         text, want = 'REC(%s%s%s)' % (L, sep, L), 1
+    if re.search(r'\s', s) and len(s) % 2 == 0:
+        # the same parser has just read the same formula with other white space inside the literal: what is between the quotes counts, character by character
+        other = re.sub(r'\s+', lambda m: '  ' if m.group() == ' ' else ' ', s)
+        env.parse(text.replace(L, q + other + q))
+        del calls[:]
     r = env.parse(text)
     g = r['result']
     if r['error'] is not None or type(g) != type(want) or g != want:
@@ -153,7 +159,7 @@ def string_key(case):
 
 leafs = st.one_of(st.sampled_from(['1', '2', '3', '10', '007']).map(lambda s: ['num', s]), st.sampled_from(['0.5', '.25', '12.50']).map(lambda s: ['dec', s]),
                   st.sampled_from(['v_a', 'v_b', 'v_s', 'TRUE', 'NULL', 'nosuch', 'v_comma', 'v_semi', 'v_bslash']).map(lambda n: ['var', n]),   # values equal to a separator character
-                  st.sampled_from(['B2', '$B$2', 'c3', 'aa10', 'C$3', 'Z99']).map(lambda n: ['cell', n]),
+                  st.sampled_from(['B2', '$B$2', 'c3', 'aa10', 'C$3', 'Z99', 'n1', 't3', 'r2', 'N1']).map(lambda n: ['cell', n]),       # (a backslash separator followed by n1 or t3 is no escape sequence)
                   st.sampled_from([['range', 'B2', 'C3'], ['range', 'c3', 'b2'], ['range', '$B$2', 'C3']]),
                   st.sampled_from([['str', 'a b', '"'], ['str', ' x ', "'"], ['str', 'p,q;r', '"'], ['str', '', '"'], ['str', '\t\n', '"'], ['str', ',', '"'], ['str', ';', '"'], ['str', ';', "'"], ['str', ',', "'"]]),
                   st.sampled_from(['#N/A', '#DIV/0!']).map(lambda c: ['errlit', c]))
